@@ -1,0 +1,339 @@
+//go:build verif
+
+package db
+
+// Contracts for property C08 (sequence buffering in the change cache). Comment-only; read by /verif/engine.
+// Ghost state and the trusted contracts of the skip list, container/heap and the channel cache: /verif/trusted/c08_cache.spec
+
+//@ props C08
+
+// ---- the skipped-sequence list, verified against the abstract-set contract of the skip list ----
+
+//@ func NewSkippedSequenceRangeEntry
+//@   ensures[fields] result.Start == start && result.End == end
+
+//@ func NewSingleSkippedSequenceEntryAt
+//@   ensures[fields] result.Start == seq && result.End == seq
+
+//@ func SkippedSequenceSkiplist.Contains
+//@   requires s != nil && s.list != nil
+//@   ensures[member] result <==> (x in c08skipped)
+
+//@ func SkippedSequenceSkiplist.getOldest
+//@   requires s != nil && s.list != nil
+//@   ensures[empty]  (forall q uint64 :: {q in c08skipped} !(q in c08skipped)) ==> result == 0
+//@   ensures[least]  (exists q uint64 :: {q in c08skipped} q in c08skipped) ==> (result in c08skipped) && (forall q uint64 :: {q in c08skipped} q in c08skipped ==> result <= q)
+
+//@ func SkippedSequenceSkiplist.PushSkippedSequenceEntry
+//@   requires s != nil && s.list != nil && entry.Start <= entry.End
+//@   modifies c08skipped, s.NumCumulativeSkippedSequences
+//@   ensures[added]     disjoint(old(c08skipped), interval(entry.Start, entry.End)) ==> isNilErr(result) && c08skipped == union(old(c08skipped), interval(entry.Start, entry.End))
+//@   ensures[rejected]  !isNilErr(result) ==> c08skipped == old(c08skipped)
+
+//@ func SkippedSequenceSkiplist.processUnusedSequenceRangeAtSkipped
+//@   requires s != nil && s.list != nil && fromSequence <= toSequence
+//@   modifies c08skipped
+//@   ensures[removed] c08skipped == minus(old(c08skipped), interval(fromSequence, toSequence))
+
+// ---- the pending queue: callbacks handed to container/heap ----
+
+//@ func LogPriorityQueue.Less
+//@   safety on
+//@   requires 0 <= i && i < len(h) && 0 <= j && j < len(h) && h[i] != nil && h[j] != nil
+//@   ensures[by-sequence] result <==> h[i].Sequence < h[j].Sequence
+
+//@ func LogPriorityQueue.Swap
+//@   safety on
+//@   requires 0 <= i && i < len(h) && 0 <= j && j < len(h)
+//@   modifies elems(h)
+//@   ensures[swapped] h[i] == old(h[j]) && h[j] == old(h[i])
+//@   ensures[others]  forall k int :: {h[k]} 0 <= k && k < len(h) && k != i && k != j ==> h[k] == old(h[k])
+
+//@ func LogPriorityQueue.Push
+//@   safety on
+//@   requires h != nil && dynType(x) == typeTag(*LogEntry)
+//@   modifies *h, elems(*h)
+//@   ensures[appended] len(*h) == old(len(*h)) + 1 && (*h)[len(*h) - 1] == unbox(x, *LogEntry)
+//@   ensures[prefix]   forall k int :: {(*h)[k]} 0 <= k && k < old(len(*h)) ==> (*h)[k] == old((*h)[k])
+
+//@ func LogPriorityQueue.Pop
+//@   safety on
+//@   requires h != nil && len(*h) > 0
+//@   modifies *h
+//@   ensures[last]     result == box(old((*h)[len(*h) - 1])) && len(*h) == old(len(*h)) - 1
+//@   ensures[prefix]   forall k int :: {(*h)[k]} 0 <= k && k < len(*h) ==> (*h)[k] == old((*h)[k])
+
+// Shape of the pending queue: no nil entries, the binary-heap order container/heap maintains through the
+// callbacks above, and its consequence that index 0 holds a least sequence.
+//@ pred pqNonNil(q LogPriorityQueue) bool
+//@   is forall k int :: {q[k]} 0 <= k && k < len(q) ==> q[k] != nil
+//@ pred pqHeap(q LogPriorityQueue) bool
+//@   is forall i int, j int :: {q[i], q[j]} 0 <= i && i < j && j < len(q) && (j == 2*i + 1 || j == 2*i + 2) ==> q[i].Sequence <= q[j].Sequence
+//@ pred pqMin(q LogPriorityQueue) bool
+//@   is forall k int :: {q[k]} 0 <= k && k < len(q) ==> q[0].Sequence <= q[k].Sequence
+
+// container/heap over *LogPriorityQueue. TRUSTED: container/heap.Push appends x through LogPriorityQueue.Push and
+// sifts it up with Less/Swap; container/heap.Pop swaps the root with the last element, sifts down and removes the
+// last element through LogPriorityQueue.Pop. With Less = "smaller Sequence" (verified above) both keep the binary
+// heap order, only permute the stored pointers, and the root of a binary heap is a least element (induction on
+// the index, not provable by the SMT solvers: stated as pqMin).
+// Engine limitation: the queue is passed as the interior pointer &c.pendingLogs boxed in a heap.Interface, and the
+// verifier gives such a pointer an opaque identity (the callee's *h is not connected to the caller's field). The
+// contracts therefore name the queue as "the pendingLogs field of THE change cache" c08cache() (the cache the
+// ghost sets describe; c08WF(c) says c is that cache). ASSUMED, not checked: h == &c08cache().pendingLogs. In
+// package db the only LogPriorityQueue objects are changeCache.pendingLogs fields and the three call sites
+// (processEntry, _pushRangeToPending, _popPendingLog) all pass &c.pendingLogs.
+//@ fn c08cache() *changeCache
+
+//@ extern func container/heap.Push
+//@   requires[queue] dynType(h) == typeTag(*LogPriorityQueue) && dynType(x) == typeTag(*LogEntry) && unbox(x, *LogEntry) != nil
+//@   requires[heap]  pqNonNil(c08cache().pendingLogs) && pqHeap(c08cache().pendingLogs) && pqSet(c08cache().pendingLogs)
+//@   modifies c08cache().pendingLogs, elems(c08cache().pendingLogs), c08pending
+//@   ensures[len]    len(c08cache().pendingLogs) == old(len(c08cache().pendingLogs)) + 1
+//@   ensures[heap]   pqNonNil(c08cache().pendingLogs) && pqHeap(c08cache().pendingLogs) && pqMin(c08cache().pendingLogs) && pqSet(c08cache().pendingLogs)
+//@   ensures[set]    c08pending == union(old(c08pending), single(unbox(x, *LogEntry).Sequence))
+//@   ensures[nonew]  forall k int :: {c08cache().pendingLogs[k]} 0 <= k && k < len(c08cache().pendingLogs) ==> c08cache().pendingLogs[k] == unbox(x, *LogEntry) || (exists j int :: {old(c08cache().pendingLogs[j])} 0 <= j && j < old(len(c08cache().pendingLogs)) && c08cache().pendingLogs[k] == old(c08cache().pendingLogs[j]))
+
+//@ extern func container/heap.Pop
+//@   requires[queue] dynType(h) == typeTag(*LogPriorityQueue) && len(c08cache().pendingLogs) > 0
+//@   requires[heap]  pqNonNil(c08cache().pendingLogs) && pqHeap(c08cache().pendingLogs) && pqSet(c08cache().pendingLogs)
+//@   modifies c08cache().pendingLogs, elems(c08cache().pendingLogs), c08pending
+//@   ensures[root]   result == box(old(c08cache().pendingLogs[0]))
+//@   ensures[len]    len(c08cache().pendingLogs) == old(len(c08cache().pendingLogs)) - 1
+//@   ensures[heap]   pqNonNil(c08cache().pendingLogs) && pqHeap(c08cache().pendingLogs) && pqMin(c08cache().pendingLogs) && pqSet(c08cache().pendingLogs)
+//@   ensures[least]  forall s uint64 :: {s in c08pending} (s in c08pending) ==> old(c08cache().pendingLogs[0].Sequence) <= s
+//@   ensures[set]    subset(c08pending, old(c08pending)) && (forall s uint64 :: {s in old(c08pending)} old(s in c08pending) && s != old(c08cache().pendingLogs[0].Sequence) ==> (s in c08pending))
+//@   ensures[nonew]  forall k int :: {c08cache().pendingLogs[k]} 0 <= k && k < len(c08cache().pendingLogs) ==> (exists j int :: {old(c08cache().pendingLogs[j])} 0 <= j && j < old(len(c08cache().pendingLogs)) && c08cache().pendingLogs[k] == old(c08cache().pendingLogs[j]))
+
+// ---- the buffering state ----
+
+// "s has been released as unused by the sequence allocator" (a fact about the bucket, fixed from the cache's
+// point of view). Unused-sequence RANGE notifications are assumed truthful (precondition of processUnusedRange).
+//@ fn c08unused(s uint64) bool
+
+// A queue entry: a single sequence (EndSequence == 0), or an unused range [Sequence, EndSequence] that is
+// not inverted and covers only unused sequences. 18446744073709551615 (MaxUint64) is excluded: Sequence+1 wraps.
+//@ pred entryOK(p *LogEntry) bool
+//@   is p.Sequence < 18446744073709551615 && (p.EndSequence == 0 || (p.UnusedSequence && p.Sequence <= p.EndSequence && p.EndSequence < 18446744073709551615 &&
+//@        (forall s uint64 :: {c08unused(s)} p.Sequence <= s && s <= p.EndSequence ==> c08unused(s))))
+// channels/log_entry.go:89  `return l.UnusedSequence && l.EndSequence > 0`. Stated as a (trusted) extern contract
+// instead of `pure` because of an engine limitation: db.LogEntry is an alias of channels.LogEntry and the verifier
+// keeps separate heap components for the two spellings, so a body-derived definition made in package channels
+// reads fields the db code never writes.
+//@ extern func github.com/couchbase/sync_gateway/channels.LogEntry.IsUnusedRange
+//@   inert
+//@   ensures result <==> l.UnusedSequence && l.EndSequence > 0
+
+//@ pred pqShape(q LogPriorityQueue) bool
+//@   is forall k int :: {q[k]} 0 <= k && k < len(q) ==> entryOK(q[k])
+// link between the queue and its ghost view c08pending (both directions that are used)
+//@ pred pqSet(q LogPriorityQueue) bool
+//@   is (forall k int :: {q[k]} 0 <= k && k < len(q) ==> (q[k].Sequence in c08pending)) &&
+//@      (forall s uint64 :: {s in c08pending} (s in c08pending) ==> len(q) > 0 && q[0].Sequence <= s)
+
+// object well-formedness (established by changeCache.Init); c is THE cache of the ghost state
+//@ pred c08WF(c *changeCache) bool
+//@   is c != nil && c == c08cache() && c.skippedSeqs != nil && c.skippedSeqs.list != nil && c.db != nil && c.receivedSeqs != nil && !isNilErr(c.channelCache)
+
+// The buffering invariant (assumed on entry of every method that runs under c.lock, proved on exit):
+//   window   the high-water mark is above the start-up sequence;
+//   below    nothing at or below the start-up sequence is delivered or skipped;
+//   exact    below the high-water mark no sequence is both delivered and skipped, and every sequence is delivered,
+//            or skipped, or known to be unused: "the skipped set is exactly the set of missing sequences below
+//            the high-water mark" and "the mark advances only across arrived or declared-unused sequences";
+//   above    at or above the high-water mark nothing is delivered and nothing is skipped.
+//@ pred c08Inv(c *changeCache) bool
+//@   is c.initialSequence < c.nextSequence &&
+//@      (forall s uint64 :: {s in c08delivered} {s in c08skipped} s <= c.initialSequence ==> !(s in c08delivered) && !(s in c08skipped)) &&
+//@      (forall s uint64 :: {s in c08delivered} {s in c08skipped} c.initialSequence < s && s < c.nextSequence ==> !((s in c08delivered) && (s in c08skipped)) && ((s in c08delivered) || (s in c08skipped) || c08unused(s))) &&
+//@      (forall s uint64 :: {s in c08delivered} {s in c08skipped} s >= c.nextSequence ==> !(s in c08delivered) && !(s in c08skipped))
+
+// The pending queue: a heap of well-shaped entries, none of which is (wrongly) in the skipped set or from before start-up.
+//@ pred c08Q(c *changeCache) bool
+//@   is pqNonNil(c.pendingLogs) && pqHeap(c.pendingLogs) && pqMin(c.pendingLogs) && pqShape(c.pendingLogs) && pqSet(c.pendingLogs) && disjoint(c08pending, c08skipped) &&
+//@      (forall s uint64 :: {s in c08pending} (s in c08pending) ==> s > c.initialSequence)
+
+// receivedSeqs (the duplicate filter for pending entries) only holds sequences that really are pending, none below the mark
+//@ pred c08Recv(c *changeCache) bool
+//@   is forall s uint64 :: {s in c.receivedSeqs} (s in c.receivedSeqs) ==> (s in c08pending) && s >= c.nextSequence
+
+//@ func changeCache.WasSkipped
+//@   requires c08WF(c)
+//@   ensures[member] result <==> (x in c08skipped)
+
+//@ func changeCache.RemoveSkipped
+//@   requires c08WF(c)
+//@   modifies c08skipped
+//@   ensures[removed] c08skipped == minus(old(c08skipped), single(x))
+//@   ensures[error]   isNilErr(result) <==> old(x in c08skipped)
+
+//@ func changeCache.PushSkipped
+//@   requires c08WF(c)
+//@   modifies c08skipped, c.skippedSeqs.NumCumulativeSkippedSequences
+//@   ensures[noop]    startSeq > endSeq ==> c08skipped == old(c08skipped)
+//@   ensures[pushed]  startSeq <= endSeq && disjoint(old(c08skipped), interval(startSeq, endSeq)) ==> c08skipped == union(old(c08skipped), interval(startSeq, endSeq))
+
+//@ func changeCache.getOldestSkippedSequence
+//@   requires c08WF(c)
+//@   ensures[empty]  (forall q uint64 :: {q in c08skipped} !(q in c08skipped)) ==> result == 0
+//@   ensures[least]  (exists q uint64 :: {q in c08skipped} q in c08skipped) ==> (result in c08skipped) && (forall q uint64 :: {q in c08skipped} q in c08skipped ==> result <= q)
+
+// The value exposed as the low ("stable") sequence hides no gap: everything above the start-up sequence and
+// up to it has been delivered (or is a released, unused sequence), and it is below every skipped sequence.
+//@ func changeCache._getMaxStableCached
+//@   requires c08WF(c) && c08Inv(c)
+//@   ensures[no-gap]        forall s uint64 :: {s in c08delivered} c.initialSequence < s && s <= result ==> (s in c08delivered) || c08unused(s)
+//@   ensures[below-skipped] forall s uint64 :: {s in c08skipped} (s in c08skipped) ==> result < s
+//@   ensures[bounds]        c.initialSequence <= result && result < c.nextSequence
+//@   ensures[tight]         (result + 1 in c08skipped) || result + 1 == c.nextSequence
+
+//@ func changeCache._setInitialSequence
+//@   requires c != nil
+//@   requires[fresh] initialSequence < 18446744073709551615 && (forall s uint64 :: {s in c08delivered} {s in c08skipped} !(s in c08delivered) && !(s in c08skipped))
+//@   modifies c.initialSequence, c.nextSequence
+//@   ensures[inv] c08Inv(c) && c.initialSequence == initialSequence && c.nextSequence == initialSequence + 1
+
+//@ func changeCache._pushRangeToPending
+//@   requires c != nil && c == c08cache() && c08Q(c) && startSeq <= endSeq && endSeq < 18446744073709551615 && !(startSeq in c08skipped) && startSeq > c.initialSequence
+//@   requires[truthful] forall s uint64 :: {c08unused(s)} startSeq <= s && s <= endSeq ==> c08unused(s)
+//@   modifies c.pendingLogs, elems(c.pendingLogs), c08pending
+//@   ensures[len]    len(c.pendingLogs) == old(len(c.pendingLogs)) + 1
+//@   ensures[queue]  c08Q(c)
+//@   ensures[set]    c08pending == union(old(c08pending), single(startSeq))
+
+// The entry handed back is the least pending one (all candidates considered have the same start sequence); an
+// unused range is cut back so that it ends before every entry that is still pending.
+//@ func changeCache._popPendingLog
+//@   requires c != nil && c == c08cache() && c08Q(c) && len(c.pendingLogs) > 0
+//@   modifies c.pendingLogs, elems(c.pendingLogs), c08pending, LogEntry.EndSequence
+//@   ensures[entry]   result != nil && result.Sequence == old(c.pendingLogs[0].Sequence) && entryOK(result)
+//@   ensures[len]     len(c.pendingLogs) < old(len(c.pendingLogs))
+//@   ensures[queue]   c08Q(c)
+//@   ensures[set]     subset(c08pending, old(c08pending)) && (forall s uint64 :: {s in old(c08pending)} old(s in c08pending) && s != result.Sequence ==> (s in c08pending))
+//@   ensures[least]   forall s uint64 :: {s in c08pending} (s in c08pending) ==> result.Sequence <= s
+//@   ensures[range-clear] result.EndSequence != 0 ==> (forall s uint64 :: {s in c08pending} (s in c08pending) ==> result.EndSequence < s)
+//@   ensures[end-shrinks] result.EndSequence <= old(result.EndSequence) && (old(result.EndSequence) == 0 ==> result.EndSequence == 0)
+
+// Forwarding one entry to the channel cache. Either it is the expected next sequence (the mark moves past it, or
+// past the whole unused range), or it is a late arrival of a skipped sequence (the mark stays). The exactly-once
+// obligation (precondition of the ChannelCache methods) is discharged here from the invariant.
+//@ func changeCache._addToCache
+//@   requires c08WF(c) && c08Inv(c) && change != nil && entryOK(change)
+//@   requires[in-order-or-late] change.Sequence == c.nextSequence || (change.EndSequence == 0 && (change.Sequence in c08skipped))
+//@   modifies c.nextSequence, elems(c.receivedSeqs), c08delivered, change.Channels
+//@   ensures[delivered] c08delivered == union(old(c08delivered), ite(change.EndSequence == 0, single(change.Sequence), interval(change.Sequence, change.EndSequence)))
+//@   ensures[next]      c.nextSequence == ite(old(change.Sequence == c.nextSequence), ite(change.EndSequence == 0, change.Sequence + 1, change.EndSequence + 1), old(c.nextSequence))
+//@   ensures[received]  forall k uint64 :: {k in c.receivedSeqs} (k in c.receivedSeqs) <==> old(k in c.receivedSeqs) && k != change.Sequence
+//@   ensures[inv]       old(change.Sequence == c.nextSequence) ==> c08Inv(c)
+
+// Draining the pending queue. Every step keeps the buffering invariant; the mark never moves backwards; nothing
+// delivered or skipped is taken back; deliveries happen at the mark only (in order); a sequence is pushed to the
+// skipped list only if no entry for it is pending; and no pending entry is lost: afterwards its sequence is still
+// pending, or delivered, or it is a released (unused) sequence; for single entries (document changes, principals,
+// single unused sequences: exactly the members of receivedSeqs) without the last alternative.
+//@ func changeCache._addPendingLogs
+//@   requires c08WF(c) && c08Inv(c) && c08Q(c) && c08Recv(c)
+//@   modifies c.nextSequence, elems(c.receivedSeqs), c08delivered, c08skipped, c08pending, c.pendingLogs, elems(c.pendingLogs), LogEntry.EndSequence, LogEntry.Channels, c.internalStats.pendingSeqLen, c.lastAddPendingTime, c.skippedSeqs.NumCumulativeSkippedSequences
+//@   ensures[inv]            c08Inv(c)
+//@   ensures[queue]          c08Q(c) && c08Recv(c)
+//@   ensures[pending-above]  forall s uint64 :: {s in c08pending} (s in c08pending) ==> s > c.nextSequence
+//@   ensures[monotone]       c.nextSequence >= old(c.nextSequence) && subset(old(c08delivered), c08delivered) && subset(old(c08skipped), c08skipped) && subset(c08pending, old(c08pending))
+//@   ensures[in-order]       forall s uint64 :: {s in c08delivered} (s in c08delivered) && !old(s in c08delivered) ==> old(c.nextSequence) <= s && s < c.nextSequence
+//@   ensures[skip-missing-only] forall s uint64 :: {s in c08skipped} (s in c08skipped) && !old(s in c08skipped) ==> !old(s in c08pending) && old(c.nextSequence) <= s && s < c.nextSequence
+//@   ensures[no-loss]        forall s uint64 :: {old(s in c08pending)} {s in c08pending} old(s in c08pending) ==> (s in c08pending) || (s in c08delivered) || c08unused(s)
+//@   ensures[no-loss-received] forall s uint64 :: {old(s in c.receivedSeqs)} {s in c.receivedSeqs} old(s in c.receivedSeqs) ==> (s in c.receivedSeqs) || (s in c08delivered)
+//@   loop 1 invariant[no-loss-received] forall s uint64 :: {old(s in c.receivedSeqs)} {s in c.receivedSeqs} old(s in c.receivedSeqs) ==> (s in c.receivedSeqs) || (s in c08delivered)
+//@   loop 1 invariant[wf]        c08WF(c)
+//@   loop 1 invariant[inv]       c08Inv(c)
+//@   loop 1 invariant[queue]     c08Q(c) && c08Recv(c)
+//@   loop 1 invariant[monotone]  c.nextSequence >= old(c.nextSequence) && subset(old(c08delivered), c08delivered) && subset(old(c08skipped), c08skipped) && subset(c08pending, old(c08pending))
+//@   loop 1 invariant[in-order]  forall s uint64 :: {s in c08delivered} (s in c08delivered) && !old(s in c08delivered) ==> old(c.nextSequence) <= s && s < c.nextSequence
+//@   loop 1 invariant[popped-below] forall s uint64 :: {old(s in c08pending)} old(s in c08pending) && !(s in c08pending) ==> s < c.nextSequence
+//@   loop 1 invariant[skip-missing-only] forall s uint64 :: {s in c08skipped} (s in c08skipped) && !old(s in c08skipped) ==> !old(s in c08pending) && old(c.nextSequence) <= s && s < c.nextSequence
+//@   loop 1 invariant[no-loss]   forall s uint64 :: {old(s in c08pending)} {s in c08pending} old(s in c08pending) ==> (s in c08pending) || (s in c08delivered) || c08unused(s)
+
+// One feed entry (a document change, a principal, or a single unused sequence; never a range).
+// Preconditions stated, not proved (they are what DocChanged and its siblings provide):
+//   single                 the entry is not a range and its sequence is not MaxUint64;
+//   skipped-flag-truthful  change.Skipped is computed by DocChanged OUTSIDE the lock (WasSkipped); it is assumed to
+//                          still be true here. Under concurrent feed workers it can be stale (not decided here).
+// Outcomes: a late arrival of a skipped sequence is delivered and leaves the skipped set with the mark unchanged
+// (and is delivered BEFORE it leaves the skipped set, so the stable sequence does not move past it early); a
+// sequence below the mark that is not skipped is a duplicate and changes nothing; a duplicate of a pending entry
+// changes nothing and an entry for that sequence really is pending; anything else ends up delivered or pending.
+//@ func changeCache.processEntry
+//@   requires c08WF(c) && c08Inv(c) && c08Q(c) && c08Recv(c) && change != nil
+//@   requires[single] change.EndSequence == 0 && change.Sequence < 18446744073709551615
+//@   requires[skipped-flag-truthful] change.Skipped ==> (change.Sequence in c08skipped)
+//@   requires[pending-above] forall s uint64 :: {s in c08pending} (s in c08pending) ==> s > c.nextSequence
+//@   modifies c.nextSequence, elems(c.receivedSeqs), c08delivered, c08skipped, c08pending, c.pendingLogs, elems(c.pendingLogs), LogEntry.EndSequence, LogEntry.Channels, change.Skipped, c.internalStats.highSeqFeed, c.internalStats.pendingSeqLen, c.internalStats.maxPending, c.lastAddPendingTime, c.skippedSeqs.NumCumulativeSkippedSequences
+//@   ensures[inv]            c08Inv(c)
+//@   ensures[queue]          c08Q(c) && c08Recv(c)
+//@   ensures[pending-above]  forall s uint64 :: {s in c08pending} (s in c08pending) ==> s > c.nextSequence
+//@   ensures[late-arrival]   old(!c.logsDisabled && change.Sequence < c.nextSequence && (change.Sequence in c08skipped)) ==> (change.Sequence in c08delivered) && !(change.Sequence in c08skipped) && c.nextSequence == old(c.nextSequence)
+//@   ensures[duplicate]      old(c.logsDisabled || (change.Sequence < c.nextSequence && !(change.Sequence in c08skipped))) ==> c08delivered == old(c08delivered) && c08skipped == old(c08skipped) && c08pending == old(c08pending) && c.nextSequence == old(c.nextSequence)
+//@   ensures[pending-duplicate] old(!c.logsDisabled && change.Sequence >= c.nextSequence && (change.Sequence in c.receivedSeqs)) ==> (change.Sequence in c08pending) && c08delivered == old(c08delivered) && c08skipped == old(c08skipped) && c08pending == old(c08pending) && c.nextSequence == old(c.nextSequence)
+//@   ensures[accepted]       old(!c.logsDisabled && change.Sequence >= c.nextSequence && !(change.Sequence in c.receivedSeqs)) ==> (change.Sequence in c08delivered) || ((change.Sequence in c.receivedSeqs) && (change.Sequence in c08pending))
+//@   ensures[next-delivered] old(!c.logsDisabled && change.Sequence == c.nextSequence && !(change.Sequence in c.receivedSeqs)) ==> (change.Sequence in c08delivered) && c.nextSequence > change.Sequence
+//@   ensures[monotone]       c.nextSequence >= old(c.nextSequence) && subset(old(c08delivered), c08delivered)
+//@   ensures[in-order]       forall s uint64 :: {s in c08delivered} (s in c08delivered) && !old(s in c08delivered) ==> (old(c.nextSequence) <= s && s < c.nextSequence) || (s == change.Sequence && old(s in c08skipped))
+//@   ensures[skip-missing-only] forall s uint64 :: {s in c08skipped} (s in c08skipped) && !old(s in c08skipped) ==> !old(s in c08pending) && s != change.Sequence && old(c.nextSequence) <= s && s < c.nextSequence
+//@   ensures[unskip-only-delivered] forall s uint64 :: {s in c08skipped} old(s in c08skipped) && !(s in c08skipped) ==> s == change.Sequence && (s in c08delivered)
+//@   ensures[no-loss]        forall s uint64 :: {old(s in c08pending)} {s in c08pending} old(s in c08pending) ==> (s in c08pending) || (s in c08delivered) || c08unused(s)
+//@   ensures[no-loss-received] forall s uint64 :: {old(s in c.receivedSeqs)} {s in c.receivedSeqs} old(s in c.receivedSeqs) ==> (s in c.receivedSeqs) || (s in c08delivered)
+//@   before[delivered-before-unskip] call RemoveSkipped#1 ($1 in c08delivered)
+
+// An unused-sequence RANGE notification (from < to; releaseUnusedSequenceRange sends from == to through processEntry).
+// Preconditions stated, not proved: the range is not inverted (an inverted range would be handed to SkipList.Remove
+// with Start > End, which the skip list does not guard against), does not contain MaxUint64, and is truthful (its
+// sequences really are unused). Behaviour: entirely below the mark: removed from the skipped set; entirely at or
+// above the mark: queued as one pending range entry and the queue is drained; straddling the mark: ignored (the
+// code's documented defensive choice; nothing changes, the part above the mark will eventually be skipped).
+//@ func changeCache.processUnusedRange
+//@   requires c08WF(c) && c08Inv(c) && c08Q(c) && c08Recv(c)
+//@   requires[ordered]  fromSequence <= toSequence && toSequence < 18446744073709551615
+//@   requires[truthful] forall s uint64 :: {c08unused(s)} fromSequence <= s && s <= toSequence ==> c08unused(s)
+//@   requires[pending-above] forall s uint64 :: {s in c08pending} (s in c08pending) ==> s > c.nextSequence
+//@   modifies c.nextSequence, elems(c.receivedSeqs), c08delivered, c08skipped, c08pending, c.pendingLogs, elems(c.pendingLogs), LogEntry.EndSequence, LogEntry.Channels, c.internalStats.pendingSeqLen, c.lastAddPendingTime, c.skippedSeqs.NumCumulativeSkippedSequences
+//@   ensures[inv]            c08Inv(c)
+//@   ensures[queue]          c08Q(c) && c08Recv(c)
+//@   ensures[pending-above]  forall s uint64 :: {s in c08pending} (s in c08pending) ==> s > c.nextSequence
+//@   ensures[released]       old(toSequence < c.nextSequence) ==> c08skipped == minus(old(c08skipped), interval(fromSequence, toSequence)) && c08delivered == old(c08delivered) && c08pending == old(c08pending) && c.nextSequence == old(c.nextSequence)
+//@   ensures[straddling-ignored] old(fromSequence < c.nextSequence && c.nextSequence <= toSequence) ==> c08skipped == old(c08skipped) && c08delivered == old(c08delivered) && c08pending == old(c08pending) && c.nextSequence == old(c.nextSequence)
+//@   ensures[monotone]       c.nextSequence >= old(c.nextSequence) && subset(old(c08delivered), c08delivered)
+//@   ensures[in-order]       forall s uint64 :: {s in c08delivered} (s in c08delivered) && !old(s in c08delivered) ==> old(c.nextSequence) <= s && s < c.nextSequence
+//@   ensures[skip-missing-only] forall s uint64 :: {s in c08skipped} (s in c08skipped) && !old(s in c08skipped) ==> !old(s in c08pending) && s != fromSequence && old(c.nextSequence) <= s && s < c.nextSequence
+//@   ensures[unskip-only-unused] forall s uint64 :: {s in c08skipped} old(s in c08skipped) && !(s in c08skipped) ==> fromSequence <= s && s <= toSequence
+//@   ensures[no-loss]        forall s uint64 :: {old(s in c08pending)} {s in c08pending} old(s in c08pending) ==> (s in c08pending) || (s in c08delivered) || c08unused(s)
+//@   ensures[no-loss-received] forall s uint64 :: {old(s in c.receivedSeqs)} {s in c.receivedSeqs} old(s in c.receivedSeqs) ==> (s in c.receivedSeqs) || (s in c08delivered)
+
+// ---- callers: the preconditions of processEntry / processUnusedRange hold at these call sites ----
+// (only the call-site obligations are claimed; what happens after the call is the notification of listeners)
+
+//@ func changeCache.releaseUnusedSequence
+//@   requires c08WF(c) && c08Inv(c) && c08Q(c) && c08Recv(c) && sequence < 18446744073709551615
+//@   requires[pending-above] forall s uint64 :: {s in c08pending} (s in c08pending) ==> s > c.nextSequence
+//@   modifies *
+
+//@ func changeCache.releaseUnusedSequenceRange
+//@   requires c08WF(c) && c08Inv(c) && c08Q(c) && c08Recv(c)
+//@   requires[ordered]  fromSequence <= toSequence && toSequence < 18446744073709551615
+//@   requires[truthful] forall s uint64 :: {c08unused(s)} fromSequence <= s && s <= toSequence ==> c08unused(s)
+//@   requires[pending-above] forall s uint64 :: {s in c08pending} (s in c08pending) ==> s > c.nextSequence
+//@   modifies *
+
+// ---- resuming a changes feed ----
+// changes.go (MultiChangesFeed, not under contract: goroutines/channels) stamps every entry it sends with
+// LowSeq = oldestSkipped - 1 when getOldestSkippedSequence() > 0, and 0 ("no low sequence") otherwise. A client
+// resumes from SafeSequence() of the last entry it saw. The resume point must be below the oldest skipped sequence,
+// so that the late arrival is not missed.
+//@ lemma c08_resume_before_oldest_skipped(oldest uint64, tok SequenceID)
+//@   mode bv
+//@   requires oldest > 0 && tok.LowSeq == oldest - 1
+//@   ensures[resume-safe] tok.SafeSequence() < oldest
+
+// the same with the case oldest == 1 excluded (LowSeq == 0 is indistinguishable from "nothing skipped")
+//@ lemma c08_resume_before_oldest_skipped_gt1(oldest uint64, tok SequenceID)
+//@   mode bv
+//@   requires oldest > 1 && tok.LowSeq == oldest - 1
+//@   ensures[resume-safe] tok.SafeSequence() < oldest
